@@ -450,6 +450,13 @@ def apply_generic(ev, env, R=None):
         if ctgt != tgt and not _plain_local(tgt):
             e.kill(ctgt)
         if t.get('op') != '=':
+            K = const_int(t['r']) if t.get('op') in ('-=', '+=') else None
+            if K is not None and K > 0 and (R is None or tgt in R or ctgt in R):
+                lo, hi, ex = env.intf(tgt)
+                unsigned = isinstance(strip(t['l']), dict) and strip(t['l']).get('s') == 0
+                if t['op'] == '-=' and unsigned and lo != -INF and lo >= K:
+                    # an unsigned value known to be at least K is lowered by K without wrapping
+                    e.ints[tgt] = (lo - K, hi - K if hi != INF else hi, frozenset(x - K for x in ex if x - K >= 0))
             return e
         if R is not None and tgt not in R and ctgt not in R:
             # still record aliases for plain locals: they are cheap and needed for canon()
@@ -473,6 +480,12 @@ def apply_generic(ev, env, R=None):
         if lo == hi and lo not in (-INF, INF) and (R is None or tgt in R or ctgt in R):
             d = 1 if t['op'] == '++' else -1
             e.ints[tgt] = (lo + d, hi + d, frozenset())
+        elif t['op'] == '--' and (R is None or tgt in R or ctgt in R) and isinstance(strip(t['e']), dict) and strip(t['e']).get('s') == 0 \
+                and (lo >= 1 or 0 in ex) and (lo != -INF or hi != INF or ex):
+            # an unsigned value known non-zero is stepped down without wrapping: the interval and the excluded values move with it
+            # (`if (!len) return; if (len == 1) return; len--;` leaves len known non-zero)
+            nex = frozenset(x - 1 for x in ex if x - 1 >= 0)
+            e.ints[tgt] = (lo - 1 if lo != -INF else lo, hi - 1 if hi != INF else hi, nex)
         return e
     if k == 'decl':
         e = env
